@@ -9,10 +9,14 @@
           one file of an intact image unreadable (I/O error on open or on read); entries of 1 MiB
           to beyond 64 MiB intact, with a damaged tail, and around truncation.
 3. TV   : WalFormatTrace judges each record with the layout arithmetic of WalFormat.tla.
+4. Actor: the truncation rule through the REAL WAL actor (WalPolicy.tla, checks/wal_policy.py): TruncateUpTo
+          messages among the writes of every fsync policy; a delete of the active file, or of a file holding
+          an entry stamped later than every requested threshold, is rejected by WalPolicyTrace.
 """
 import os
 from lib import vlib
 from lib.vlib import Report
+from checks import wal_policy
 
 PID = "C10"
 
@@ -41,6 +45,7 @@ def run(tier):
     rep.cov["rule"] = ("a case is one real image (1-3 files, 1-4 entries each) with one damage (every cut length, single-bit "
                        "flips, 2-4 byte bursts, 16-byte zero windows, zero extensions) or one truncate_before call over every "
                        "layout of stamps {1,2,3} and every threshold; non-trivial = the image actually changed / a truncation ran")
+    wal_policy.run_family(rep, wd, tier, PID, mc=("MCWalPolicyAlways", "MCWalPolicyAsBuiltLast", "MCWalPolicyAsBuiltActive"))
     rep.cov["exhaustive"] = True
     rep.cov["explanation"] = "exhaustive over cut lengths and byte positions of the listed layouts; quick samples 3 of 8 bit positions per byte at random beyond bits 0 and 7"
     rep.assumptions += ["CRC32 detects every single-bit flip and every burst <= 32 bits inside the region it covers",
